@@ -1,4 +1,5 @@
 """C05 — running a config through any stream equals calling each test on its window rows."""
+from fractions import Fraction as Fr
 from .. import expr as X
 from ..scen import Outcome
 from ..streams_h import Table, expected_direct, make_config_source, run_frontend, test_menu, T0, STEP
@@ -25,6 +26,8 @@ def context_sets(thorough):
         ('covering-window', [dict(window=(t(0), t(9)), tests=lite)]),
         ('two-contexts', [dict(window=(t(0), t(2)), tests=lite), dict(window=(t(2), t(5)), tests={'a': ['gross', 'roc'], 'b': ['flat', 'valid']})]),
         ('one-row-window', [dict(window=(t(4), None), tests=lite)]),
+        ('whole-record-then-window', [dict(window=(None, None), tests={'a': ['gross', 'spike'], 'b': ['valid']}),
+                                      dict(window=(t(1), t(3)), tests={'a': ['gross', 'spike'], 'b': ['valid']})]),
     ]
     if thorough:
         sets += [
@@ -116,6 +119,25 @@ def compare_run(ck, frontend, setname, table, contexts, run, expected, single=No
              and not any((sid, mod, tst) == (r[0], r[1], r[2]) and (d is None or d.kind == 'raise') for (ci, sid, mod, tst), (rows, d) in expected.items())]
     ck.ob('C05.extra', label0, not extra, key=f'{frontend}:{tclass}:unexpected-results',
           what=f'{label0}: results that no configured (context, stream, test) accounts for: {[(r[0], r[2], r[3]) for r in extra][:4]}')
+    # what the stream reported stays what it reported: collecting the results (either form) does not rewrite the per-context flags
+    if single is None and run.context_results and tclass == 'table':
+        from ..interp import AbsRaise
+        it = ck.runner.interp
+        collect = it.module('ioos_qc.results').globals['collect_results']
+
+        def sig(v):
+            return [('--' if e.m is True else '') + X.show(e.d) for e in v.els()] if isinstance(v, Vec) else repr(v)
+        before = [(r[0], r[2], r[3], sig(r[4])) for r in run.results]
+        for how in ('dict', 'list'):
+            try:
+                it.call(collect, [list(run.context_results)], dict(how=how), None)
+            except AbsRaise:
+                pass       # whether collecting works at all is C06's business
+            after = [(r[0], r[2], r[3], sig(r[4])) for r in run.results]
+            changed = [(b[0], b[1]) for b, a in zip(before, after) if a != b]
+            ck.ob('C05.flags', f'{label0} after collect_results(how={how!r})', not changed, key=f'{frontend}:collect-{how}-rewrites-context-results',
+                  what=f'{label0}: collect_results(how={how!r}) changed the flags held by the ContextResults of {changed[:3]} (they no longer equal the direct call)')
+            before = after
 
 
 def window_class(w):
@@ -192,6 +214,24 @@ def run(ck):
         expected = expected_direct(ck.runner, shuffled, contexts)
         for fe in ('numpy', 'netcdf', 'pandas'):
             compare_run(ck, fe, setname + '/unsorted-times', shuffled, contexts, run_frontend(ck.runner, fe, shuffled, src), expected)
+    # a row without a timestamp (NaT): it belongs to no window, whichever bounds the window has
+    nat = Table(5, missing={'a': {2}, 'time': {3}})
+    lite2 = {'a': ['gross', 'spike'], 'b': ['valid']}
+    for setname, contexts in (('closed-window', [dict(window=(t(1), t(5)), tests=lite2)]), ('starting-only', [dict(window=(t(1), None), tests=lite2)]),
+                              ('ending-only', [dict(window=(None, t(4)), tests=lite2)])):
+        src = make_config_source(contexts)
+        expected = expected_direct(ck.runner, nat, contexts)
+        for fe in ('numpy', 'netcdf', 'pandas'):
+            compare_run(ck, fe, setname + '/row-without-timestamp', nat, contexts, run_frontend(ck.runner, fe, nat, src), expected)
+    # instants and window edges that are not on whole seconds; for NumpyStream also with the time axis given as epoch seconds (floats)
+    for carrier, fes in (('dt64', ('numpy', 'netcdf', 'pandas')), ('epoch_float', ('numpy',))):
+        frac = Table(5, missing={'a': {2}}, time_offset=Fr(3, 4), time_carrier=carrier)
+        for setname, contexts in (('edges-between-stamps', [dict(window=(t(1, Fr(1, 2)), t(3, Fr(1, 2))), tests=lite2)]),
+                                  ('two-contexts', [dict(window=(t(0), t(2, Fr(1, 2))), tests=lite2), dict(window=(t(2, Fr(1, 2)), t(5)), tests=lite2)])):
+            src = make_config_source(contexts)
+            expected = expected_direct(ck.runner, frac, contexts)
+            for fe in fes:
+                compare_run(ck, fe, f'{setname}/sub-second/{carrier}', frac, contexts, run_frontend(ck.runner, fe, frac, src), expected)
     # the same context (equal window) listed twice, not adjacently: all of its calls must still run
     table = tables[0]
     contexts = [dict(window=(t(0), t(2)), tests={'a': ['gross']}), dict(window=(t(2), t(5)), tests={'a': ['gross', 'spike']}),
